@@ -65,6 +65,14 @@ Proof.
   - rewrite H. cbn [negb andb app]. f_equal. apply IH, Hr.
 Qed.
 
+(* the request line documented in aws_sign.h is "<method> <path> HTTP/1.1": a path begins with '/' *)
+Definition abs_path (s : bytes) : bool := match s with c :: _ => c =? 47 | [] => false end.
+
+Lemma canonical_uri_path s : abs_path s = true -> path_str s = true -> canonical_uri s = s.
+Proof.
+  destruct s as [|c r]; [discriminate|]. intros _ H. unfold canonical_uri. apply uri_encode_path, H.
+Qed.
+
 Lemma digit_not_space z : negb (digit z =? 32) = true.
 Proof. unfold digit. apply negb_true_iff, N.eqb_neq. lia. Qed.
 
@@ -101,6 +109,160 @@ Qed.
 Lemma unreserved_str_app x y :
   unreserved_str x = true -> unreserved_str y = true -> unreserved_str (x ++ y) = true.
 Proof. unfold unreserved_str. rewrite forallb_app. intros -> ->. reflexivity. Qed.
+
+(* ---------- the libc time functions on the instants whose year has four digits ---------- *)
+Section Time.
+  Local Open Scope Z_scope.
+  Ltac Zify.zify_post_hook ::= Z.div_mod_to_equations.
+
+  (* 9999-12-31T23:59:59Z is 253402300799 *)
+  Definition t_year10000 : Z := 253402300800.
+
+  Lemma civil_year_range d : 0 <= d <= 2932896 -> 1970 <= fst (fst (civil_from_days d)) <= 9999.
+  Proof.
+    intros H. unfold civil_from_days.
+    set (z := d + 719468).
+    set (era := z / 146097).
+    set (doe := z - era * 146097).
+    set (yoe := (doe - doe / 1460 + doe / 36524 - doe / 146096) / 365).
+    set (doy := doe - (365 * yoe + yoe / 4 - yoe / 100)).
+    set (mp := (5 * doy + 2) / 153).
+    cbn [fst].
+    assert (Hz : 719468 <= z <= 3652364) by (subst z; lia).
+    assert (He : 4 <= era <= 24) by (subst era; lia).
+    assert (Hd : 0 <= doe <= 146096) by (subst doe era; lia).
+    assert (Hd24 : era = 24 -> doe <= 146036) by (subst doe; lia).
+    assert (Hd4 : era = 4 -> 135080 <= doe) by (subst doe; lia).
+    assert (Hy : 0 <= yoe <= 399) by (subst yoe; lia).
+    assert (Hdoy : 0 <= doy <= 365) by (subst doy yoe; lia).
+    assert (Hmp : 0 <= mp <= 11) by (subst mp; lia).
+    destruct (mp <? 10) eqn:Em.
+    - apply Z.ltb_lt in Em. replace (mp + 3 <=? 2) with false by (symmetry; apply Z.leb_gt; lia).
+      split; [|lia].
+      assert (era = 4 -> 370 <= yoe) by (intros E4; specialize (Hd4 E4); subst yoe; lia). lia.
+    - apply Z.ltb_ge in Em. replace (mp - 9 <=? 2) with true by (symmetry; apply Z.leb_le; lia).
+      split.
+      + assert (era = 4 -> 369 <= yoe) by (intros E4; specialize (Hd4 E4); subst yoe; lia). lia.
+      + assert (era = 24 -> yoe = 399 -> False).
+        { intros E24 E399. specialize (Hd24 E24).
+          assert (doy <= 305) by (subst doy; rewrite E399; lia).
+          assert (mp <= 9) by (subst mp; lia). lia. }
+        lia.
+  Qed.
+
+  Lemma civil_year_far d : 2932897 <= d -> 10000 <= fst (fst (civil_from_days d)).
+  Proof.
+    intros H. unfold civil_from_days.
+    set (z := d + 719468).
+    set (era := z / 146097).
+    set (doe := z - era * 146097).
+    set (yoe := (doe - doe / 1460 + doe / 36524 - doe / 146096) / 365).
+    set (doy := doe - (365 * yoe + yoe / 4 - yoe / 100)).
+    set (mp := (5 * doy + 2) / 153).
+    cbn [fst].
+    assert (Hz : 3652365 <= z) by (subst z; lia).
+    assert (He : 24 <= era) by (subst era; lia).
+    assert (Hd : 0 <= doe <= 146096) by (subst doe era; lia).
+    assert (Hd24 : era = 24 -> 146037 <= doe) by (subst doe; lia).
+    assert (Hy : 0 <= yoe <= 399) by (subst yoe; lia).
+    assert (H24 : era = 24 -> yoe = 399 /\ 10 <= mp <= 11).
+    { intros E. specialize (Hd24 E). assert (Hy399 : yoe = 399) by (subst yoe; lia).
+      split; [assumption|].
+      assert (306 <= doy <= 365) by (subst doy; rewrite Hy399; lia). subst mp; lia. }
+    destruct (Z.eq_dec era 24) as [E|E].
+    - destruct (H24 E) as [Hy399 Hmp].
+      replace (mp <? 10) with false by (symmetry; apply Z.ltb_ge; lia).
+      replace (mp - 9 <=? 2) with true by (symmetry; apply Z.leb_le; lia). lia.
+    - destruct ((if mp <? 10 then mp + 3 else mp - 9) <=? 2); lia.
+  Qed.
+
+  Lemma gmtime_year t : tm_year (gmtime t) = fst (fst (civil_from_days (t / 86400))).
+  Proof. unfold gmtime. destruct (civil_from_days (t / 86400)) as [[y m] d]. reflexivity. Qed.
+
+  Lemma gmtime_year_range t : 0 <= t < t_year10000 -> 1970 <= tm_year (gmtime t) <= 9999.
+  Proof. unfold t_year10000. intros H. rewrite gmtime_year. apply civil_year_range. lia. Qed.
+
+  Lemma gmtime_year_far t : t_year10000 <= t -> 10000 <= tm_year (gmtime t).
+  Proof. unfold t_year10000. intros H. rewrite gmtime_year. apply civil_year_far. lia. Qed.
+
+  (* ----- %Y ----- *)
+  Lemma udec_ge f z acc : 10 <= z -> udec_aux (S f) z acc = udec_aux f (z / 10) (digit z :: acc).
+  Proof. intros H. cbn [udec_aux]. replace (z <? 10) with false by (symmetry; apply Z.ltb_ge; lia). reflexivity. Qed.
+
+  Lemma udec_lt f z acc : z < 10 -> udec_aux (S f) z acc = digit z :: acc.
+  Proof. intros H. cbn [udec_aux]. replace (z <? 10) with true by (symmetry; apply Z.ltb_lt; lia). reflexivity. Qed.
+
+  Lemma udec_len f : forall z acc, (List.length acc <= List.length (udec_aux f z acc))%nat.
+  Proof.
+    induction f as [|f IH]; intros z acc; cbn [udec_aux]; [lia|].
+    destruct (z <? 10); [cbn [List.length]; lia|]. specialize (IH (z / 10) (digit z :: acc)). cbn [List.length] in IH. lia.
+  Qed.
+
+  Lemma udec_len_S f z acc : (S (List.length acc) <= List.length (udec_aux (S f) z acc))%nat.
+  Proof.
+    cbn [udec_aux]. destruct (z <? 10); [cbn [List.length]; lia|].
+    pose proof (udec_len f (z / 10) (digit z :: acc)) as L. cbn [List.length] in L. exact L.
+  Qed.
+
+  (* a four-digit year is printed as its four digits *)
+  Lemma year_chars_pad4 y : 1000 <= y <= 9999 -> year_chars y = pad4 y.
+  Proof.
+    intros H. unfold year_chars. replace (y <? 0) with false by (symmetry; apply Z.ltb_ge; lia).
+    rewrite udec_ge by lia. rewrite udec_ge by lia. rewrite udec_ge by lia. rewrite udec_lt by lia.
+    unfold pad4. rewrite !Z.div_div by lia. reflexivity.
+  Qed.
+
+  (* a year from 10000 on takes at least five characters *)
+  Lemma year_chars_long y : 10000 <= y -> (5 <= List.length (year_chars y))%nat.
+  Proof.
+    intros H. unfold year_chars. replace (y <? 0) with false by (symmetry; apply Z.ltb_ge; lia).
+    rewrite udec_ge by lia. rewrite udec_ge by lia. rewrite udec_ge by lia. rewrite udec_ge by lia.
+    match goal with |- (_ <= List.length (udec_aux (S ?f) ?z ?acc))%nat => pose proof (udec_len_S f z acc) as L end.
+    cbn [List.length] in L. exact L.
+  Qed.
+End Time.
+
+(* ----- strftime depends on the year printer only through the one year it prints ----- *)
+Lemma strftime_body_gen_ext yp yq tmv : yp (tm_year tmv) = yq (tm_year tmv) ->
+  forall fmt, strftime_body_gen yp fmt tmv = strftime_body_gen yq fmt tmv.
+Proof.
+  intros E.
+  assert (H : forall fmt, strftime_body_gen yp fmt tmv = strftime_body_gen yq fmt tmv /\
+                          forall c, strftime_body_gen yp (c :: fmt) tmv = strftime_body_gen yq (c :: fmt) tmv).
+  { induction fmt as [|a fmt [IH1 IH2]].
+    - split; [reflexivity|]. intros c. cbn [strftime_body_gen]. reflexivity.
+    - split; [apply IH2|]. intros c. pose proof (IH2 a) as IHa.
+      cbn [strftime_body_gen] in IHa |- *. destruct (c =? 37).
+      + rewrite E, IH1. reflexivity.
+      + rewrite IHa. reflexivity. }
+  intros fmt. apply H.
+Qed.
+
+Lemma strftime_gen_ext yp yq tmv : yp (tm_year tmv) = yq (tm_year tmv) ->
+  forall m fmt, strftime_gen yp m fmt tmv = strftime_gen yq m fmt tmv.
+Proof. intros E m fmt. unfold strftime_gen. rewrite (strftime_body_gen_ext yp yq tmv E). reflexivity. Qed.
+
+Lemma timestamps_gen_ext yp yq nc terr tf fmts t : yp (tm_year (gmtime t)) = yq (tm_year (gmtime t)) ->
+  timestamps_gen yp nc terr tf fmts t = timestamps_gen yq nc terr tf fmts t.
+Proof.
+  intros E. unfold timestamps_gen, timestamps_core.
+  destruct (t =? terr)%Z; [reflexivity|].
+  destruct (_ && _); [|reflexivity].
+  destruct fmts as [|[[d1 m1] f1] [|[[d2 m2] f2] [|x r]]]; try reflexivity.
+  rewrite !(strftime_gen_ext yp yq (gmtime t) E). reflexivity.
+Qed.
+
+(* "%Y%m%d" into 9 bytes fails once the year needs five characters *)
+Lemma strftime_date_far tmv : (10000 <= tm_year tmv)%Z ->
+  strftime_gen year_chars 9 [37; 89; 37; 109; 37; 100] tmv = None.
+Proof.
+  intros H. unfold strftime_gen.
+  change (strftime_body_gen year_chars [37; 89; 37; 109; 37; 100] tmv)
+    with (Some (year_chars (tm_year tmv) ++ pad2 (tm_mon tmv) ++ pad2 (tm_mday tmv) ++ [])).
+  cbv beta iota. pose proof (year_chars_long _ H) as L.
+  rewrite !app_length. cbn [pad2 List.length].
+  replace (_ <? 9) with false; [reflexivity|]. symmetry. apply N.ltb_ge. lia.
+Qed.
 
 Section Hashes.
   Variable sha256 : bytes -> bytes.
@@ -140,17 +302,42 @@ Section Hashes.
   Definition datetime_str (tmv : tm) : bytes :=
     date_str tmv ++ [84] ++ pad2 (tm_hour tmv) ++ pad2 (tm_min tmv) ++ pad2 (tm_sec tmv) ++ [90].
 
+  (* the instants the proofs cover: time() did not return its error value and the UTC year has
+     four digits (gmtime_year_range: every t with 0 <= t < 253402300800) *)
+  Definition in_domain (t : Z) : Prop := t <> (-1)%Z /\ (1000 <= tm_year (gmtime t) <= 9999)%Z.
+
+  Lemma in_domain_range t : (0 <= t < t_year10000)%Z -> in_domain t.
+  Proof. intros H. pose proof (gmtime_year_range t H). split; lia. Qed.
+
   Lemma timestamps_s3_headers t :
-    timestamps time_calls_aws_sign_s3_headers timefns_aws_sign_s3_headers strftime_aws_sign_s3_headers t =
+    in_domain t ->
+    timestamps time_calls_aws_sign_s3_headers time_err_aws_sign_s3_headers timefns_aws_sign_s3_headers
+               strftime_aws_sign_s3_headers t =
     Some [(b "datetime", datetime_str (gmtime t)); (b "date", date_str (gmtime t))].
-  Proof. unfold timestamps. generalize (gmtime t). intros tmv. vm_compute. reflexivity. Qed.
+  Proof.
+    intros [Ht Hy]. unfold timestamps.
+    rewrite (timestamps_gen_ext year_chars pad4) by (apply year_chars_pad4, Hy).
+    unfold timestamps_gen. replace (t =? _)%Z with false by (symmetry; apply Z.eqb_neq; exact Ht).
+    generalize (gmtime t). intros tmv. vm_compute. reflexivity.
+  Qed.
+
+  Lemma timestamps_s3_headers_far t :
+    (10000 <= tm_year (gmtime t))%Z ->
+    timestamps time_calls_aws_sign_s3_headers time_err_aws_sign_s3_headers timefns_aws_sign_s3_headers
+               strftime_aws_sign_s3_headers t = None.
+  Proof.
+    intros Hy. unfold timestamps, timestamps_gen, timestamps_core.
+    destruct (t =? _)%Z; [reflexivity|]. destruct (_ && _); [|reflexivity].
+    unfold strftime_aws_sign_s3_headers. rewrite (strftime_date_far _ Hy). reflexivity.
+  Qed.
 
   Lemma date_is_prefix tmv : date_str tmv = firstn 8 (datetime_str tmv).
   Proof. reflexivity. Qed.
 
   (* ---------- S3, header variant ---------- *)
   Lemma s3_headers_sigv4 key_id key_secret region method bucket path body t :
-    unreserved_str bucket = true -> path_str path = true ->
+    in_domain t ->
+    unreserved_str bucket = true -> abs_path path = true -> path_str path = true ->
     let datetime := datetime_str (gmtime t) in
     let date := firstn 8 datetime in
     let content := hex_spec (sha256 (match body with Some x => x | None => [] end)) in
@@ -159,8 +346,8 @@ Section Hashes.
           sigv4_authorization sha256 hmac key_id key_secret datetime date region (b "s3")
                               (s3_request method bucket path datetime content)).
   Proof.
-    intros Hb Hp datetime date content.
-    unfold aws_sign_s3_headers_m, headers_variant. rewrite timestamps_s3_headers.
+    intros Ht Hb Ha Hp datetime date content.
+    unfold aws_sign_s3_headers_m, headers_variant. rewrite (timestamps_s3_headers t Ht).
     subst content date datetime. rewrite <- date_is_prefix.
     assert (Hdt : no_space (datetime_str (gmtime t)) = true).
     { unfold datetime_str, date_str, pad4, pad2. cbn [app no_space forallb].
@@ -170,7 +357,7 @@ Section Hashes.
     unfold sigv4_authorization, sigv4_signature, string_to_sign, canonical_request,
       canonical_headers, signed_headers, canon_headers, s3_request.
     cbn [rq_method rq_path rq_query rq_headers rq_payload_hash map fst snd].
-    rewrite (uri_encode_path path Hp), (trimall_id dt Hdt), (trimall_id _ (hex_spec_no_space _)).
+    rewrite (canonical_uri_path path Ha Hp), (trimall_id dt Hdt), (trimall_id _ (hex_spec_no_space _)).
     rewrite (trimall_id (bucket ++ b ".s3.amazonaws.com"))
       by (apply no_space_app; [apply unreserved_no_space, Hb | reflexivity]).
     unfold call_sign, aws_sign_m. abstract_hex hexf hx Hs Hh.
@@ -181,9 +368,26 @@ Section Hashes.
 
   (* ---------- generic service (EC2, SNS, SES, ...) ---------- *)
   Lemma timestamps_svc_headers t :
-    timestamps time_calls_aws_sign_svc_headers timefns_aws_sign_svc_headers strftime_aws_sign_svc_headers t =
+    in_domain t ->
+    timestamps time_calls_aws_sign_svc_headers time_err_aws_sign_svc_headers timefns_aws_sign_svc_headers
+               strftime_aws_sign_svc_headers t =
     Some [(b "datetime", datetime_str (gmtime t)); (b "date", date_str (gmtime t))].
-  Proof. unfold timestamps. generalize (gmtime t). intros tmv. vm_compute. reflexivity. Qed.
+  Proof.
+    intros [Ht Hy]. unfold timestamps.
+    rewrite (timestamps_gen_ext year_chars pad4) by (apply year_chars_pad4, Hy).
+    unfold timestamps_gen. replace (t =? _)%Z with false by (symmetry; apply Z.eqb_neq; exact Ht).
+    generalize (gmtime t). intros tmv. vm_compute. reflexivity.
+  Qed.
+
+  Lemma timestamps_svc_headers_far t :
+    (10000 <= tm_year (gmtime t))%Z ->
+    timestamps time_calls_aws_sign_svc_headers time_err_aws_sign_svc_headers timefns_aws_sign_svc_headers
+               strftime_aws_sign_svc_headers t = None.
+  Proof.
+    intros Hy. unfold timestamps, timestamps_gen, timestamps_core.
+    destruct (t =? _)%Z; [reflexivity|]. destruct (_ && _); [|reflexivity].
+    unfold strftime_aws_sign_svc_headers. rewrite (strftime_date_far _ Hy). reflexivity.
+  Qed.
 
   Lemma datetime_no_space tmv : no_space (datetime_str tmv) = true.
   Proof.
@@ -192,6 +396,7 @@ Section Hashes.
   Qed.
 
   Lemma svc_headers_sigv4 key_id key_secret region svc body t :
+    in_domain t ->
     unreserved_str svc = true -> unreserved_str region = true ->
     let datetime := datetime_str (gmtime t) in
     let date := firstn 8 datetime in
@@ -201,8 +406,8 @@ Section Hashes.
           sigv4_authorization sha256 hmac key_id key_secret datetime date region svc
                               (svc_request svc region datetime content)).
   Proof.
-    intros Hsv Hr datetime date content.
-    unfold aws_sign_svc_headers_m, headers_variant. rewrite timestamps_svc_headers.
+    intros Ht Hsv Hr datetime date content.
+    unfold aws_sign_svc_headers_m, headers_variant. rewrite (timestamps_svc_headers t Ht).
     subst content date datetime. rewrite <- date_is_prefix.
     pose proof (datetime_no_space (gmtime t)) as Hdt.
     revert Hdt. generalize (date_str (gmtime t)) (datetime_str (gmtime t)). intros d dt Hdt.
@@ -223,11 +428,29 @@ Section Hashes.
 
   (* ---------- DynamoDB ---------- *)
   Lemma timestamps_dynamodb_headers t :
-    timestamps time_calls_aws_sign_dynamodb_headers timefns_aws_sign_dynamodb_headers strftime_aws_sign_dynamodb_headers t =
+    in_domain t ->
+    timestamps time_calls_aws_sign_dynamodb_headers time_err_aws_sign_dynamodb_headers timefns_aws_sign_dynamodb_headers
+               strftime_aws_sign_dynamodb_headers t =
     Some [(b "datetime", datetime_str (gmtime t)); (b "date", date_str (gmtime t))].
-  Proof. unfold timestamps. generalize (gmtime t). intros tmv. vm_compute. reflexivity. Qed.
+  Proof.
+    intros [Ht Hy]. unfold timestamps.
+    rewrite (timestamps_gen_ext year_chars pad4) by (apply year_chars_pad4, Hy).
+    unfold timestamps_gen. replace (t =? _)%Z with false by (symmetry; apply Z.eqb_neq; exact Ht).
+    generalize (gmtime t). intros tmv. vm_compute. reflexivity.
+  Qed.
+
+  Lemma timestamps_dynamodb_headers_far t :
+    (10000 <= tm_year (gmtime t))%Z ->
+    timestamps time_calls_aws_sign_dynamodb_headers time_err_aws_sign_dynamodb_headers timefns_aws_sign_dynamodb_headers
+               strftime_aws_sign_dynamodb_headers t = None.
+  Proof.
+    intros Hy. unfold timestamps, timestamps_gen, timestamps_core.
+    destruct (t =? _)%Z; [reflexivity|]. destruct (_ && _); [|reflexivity].
+    unfold strftime_aws_sign_dynamodb_headers. rewrite (strftime_date_far _ Hy). reflexivity.
+  Qed.
 
   Lemma dynamodb_headers_sigv4 key_id key_secret region op body t :
+    in_domain t ->
     unreserved_str region = true -> unreserved_str op = true ->
     let datetime := datetime_str (gmtime t) in
     let date := firstn 8 datetime in
@@ -237,8 +460,8 @@ Section Hashes.
           sigv4_authorization sha256 hmac key_id key_secret datetime date region (b "dynamodb")
                               (dynamodb_request region op datetime content)).
   Proof.
-    intros Hr Hop datetime date content.
-    unfold aws_sign_dynamodb_headers_m, headers_variant. rewrite timestamps_dynamodb_headers.
+    intros Ht Hr Hop datetime date content.
+    unfold aws_sign_dynamodb_headers_m, headers_variant. rewrite (timestamps_dynamodb_headers t Ht).
     subst content date datetime. rewrite <- date_is_prefix.
     pose proof (datetime_no_space (gmtime t)) as Hdt.
     revert Hdt. generalize (date_str (gmtime t)) (datetime_str (gmtime t)). intros d dt Hdt.
@@ -260,9 +483,26 @@ Section Hashes.
 
   (* ---------- S3, query-string (presigned URL) variant ---------- *)
   Lemma timestamps_s3_querystr t :
-    timestamps time_calls_aws_sign_s3_querystr timefns_aws_sign_s3_querystr strftime_aws_sign_s3_querystr t =
+    in_domain t ->
+    timestamps time_calls_aws_sign_s3_querystr time_err_aws_sign_s3_querystr timefns_aws_sign_s3_querystr
+               strftime_aws_sign_s3_querystr t =
     Some [(b "datetime", datetime_str (gmtime t)); (b "date", date_str (gmtime t))].
-  Proof. unfold timestamps. generalize (gmtime t). intros tmv. vm_compute. reflexivity. Qed.
+  Proof.
+    intros [Ht Hy]. unfold timestamps.
+    rewrite (timestamps_gen_ext year_chars pad4) by (apply year_chars_pad4, Hy).
+    unfold timestamps_gen. replace (t =? _)%Z with false by (symmetry; apply Z.eqb_neq; exact Ht).
+    generalize (gmtime t). intros tmv. vm_compute. reflexivity.
+  Qed.
+
+  Lemma timestamps_s3_querystr_far t :
+    (10000 <= tm_year (gmtime t))%Z ->
+    timestamps time_calls_aws_sign_s3_querystr time_err_aws_sign_s3_querystr timefns_aws_sign_s3_querystr
+               strftime_aws_sign_s3_querystr t = None.
+  Proof.
+    intros Hy. unfold timestamps, timestamps_gen, timestamps_core.
+    destruct (t =? _)%Z; [reflexivity|]. destruct (_ && _); [|reflexivity].
+    unfold strftime_aws_sign_s3_querystr. rewrite (strftime_date_far _ Hy). reflexivity.
+  Qed.
 
   Lemma date_unreserved tmv : unreserved_str (date_str tmv) = true.
   Proof.
@@ -277,16 +517,17 @@ Section Hashes.
   Qed.
 
   Lemma s3_querystr_sigv4 key_id key_secret region method bucket path expiry t :
+    in_domain t ->
     unreserved_str key_id = true -> unreserved_str region = true ->
-    unreserved_str bucket = true -> path_str path = true ->
+    unreserved_str bucket = true -> abs_path path = true -> path_str path = true ->
     let datetime := datetime_str (gmtime t) in
     let date := firstn 8 datetime in
     aws_sign_s3_querystr_m sha256 hmac key_id key_secret region method bucket path expiry t =
     Some (sigv4_presigned_query sha256 hmac key_id key_secret datetime date region (b "s3") expiry
                                 method path [(b "Host", bucket ++ b ".s3.amazonaws.com")]).
   Proof.
-    intros Hk Hr Hb Hp datetime date.
-    unfold aws_sign_s3_querystr_m. rewrite timestamps_s3_querystr.
+    intros Ht Hk Hr Hb Ha Hp datetime date.
+    unfold aws_sign_s3_querystr_m. rewrite (timestamps_s3_querystr t Ht).
     subst date datetime. rewrite <- date_is_prefix.
     pose proof (datetime_unreserved (gmtime t)) as Hdt.
     pose proof (date_unreserved (gmtime t)) as Hd.
@@ -299,7 +540,7 @@ Section Hashes.
     rewrite !uri_encode_app.
     rewrite (uri_encode_unreserved true key_id Hk), (uri_encode_unreserved true region Hr),
       (uri_encode_unreserved true d Hd), (uri_encode_unreserved true dt Hdt),
-      (uri_encode_unreserved true ex He), (uri_encode_path path Hp).
+      (uri_encode_unreserved true ex He), (canonical_uri_path path Ha Hp).
     rewrite (trimall_id (bucket ++ b ".s3.amazonaws.com"))
       by (apply no_space_app; [apply unreserved_no_space, Hb | reflexivity]).
     unfold call_sign, aws_sign_m. abstract_hex hexf hx Hs Hh.
@@ -308,53 +549,116 @@ Section Hashes.
     reflexivity.
   Qed.
 
-  (* ---------- the same four results, stated through the documented-request functions ---------- *)
+  (* ---------- the same four results, stated through the documented-request functions, for every
+     instant from the epoch to the end of year 9999 ---------- *)
   Theorem s3_headers_doc key_id key_secret region method bucket path body t :
-    unreserved_str bucket = true -> path_str path = true ->
+    (0 <= t < 253402300800)%Z ->
+    unreserved_str bucket = true -> abs_path path = true -> path_str path = true ->
     aws_sign_s3_headers_m sha256 hmac key_id key_secret region method bucket path body t =
     let dt := datetime_str (gmtime t) in
     let ca := doc_s3_headers sha256 hmac key_id key_secret region method bucket path body dt in
     Some (fst ca, dt, snd ca).
-  Proof. intros Hb Hp. rewrite (s3_headers_sigv4 _ _ _ _ _ _ _ _ Hb Hp). reflexivity. Qed.
+  Proof.
+    intros Ht Hb Ha Hp. rewrite (s3_headers_sigv4 _ _ _ _ _ _ _ _ (in_domain_range t Ht) Hb Ha Hp).
+    reflexivity.
+  Qed.
 
   Theorem svc_headers_doc key_id key_secret region svc body t :
+    (0 <= t < 253402300800)%Z ->
     unreserved_str svc = true -> unreserved_str region = true ->
     aws_sign_svc_headers_m sha256 hmac key_id key_secret region svc body t =
     let dt := datetime_str (gmtime t) in
     let ca := doc_svc_headers sha256 hmac key_id key_secret region svc body dt in
     Some (fst ca, dt, snd ca).
-  Proof. intros H1 H2. rewrite (svc_headers_sigv4 _ _ _ _ _ _ H1 H2). reflexivity. Qed.
+  Proof.
+    intros Ht H1 H2. rewrite (svc_headers_sigv4 _ _ _ _ _ _ (in_domain_range t Ht) H1 H2). reflexivity.
+  Qed.
 
   Theorem dynamodb_headers_doc key_id key_secret region op body t :
+    (0 <= t < 253402300800)%Z ->
     unreserved_str region = true -> unreserved_str op = true ->
     aws_sign_dynamodb_headers_m sha256 hmac key_id key_secret region op body t =
     let dt := datetime_str (gmtime t) in
     let ca := doc_dynamodb_headers sha256 hmac key_id key_secret region op body dt in
     Some (fst ca, dt, snd ca).
-  Proof. intros H1 H2. rewrite (dynamodb_headers_sigv4 _ _ _ _ _ _ H1 H2). reflexivity. Qed.
+  Proof.
+    intros Ht H1 H2. rewrite (dynamodb_headers_sigv4 _ _ _ _ _ _ (in_domain_range t Ht) H1 H2). reflexivity.
+  Qed.
 
   Theorem s3_querystr_doc key_id key_secret region method bucket path expiry t :
+    (0 <= t < 253402300800)%Z ->
     unreserved_str key_id = true -> unreserved_str region = true ->
-    unreserved_str bucket = true -> path_str path = true ->
+    unreserved_str bucket = true -> abs_path path = true -> path_str path = true ->
     aws_sign_s3_querystr_m sha256 hmac key_id key_secret region method bucket path expiry t =
     Some (doc_s3_querystr sha256 hmac key_id key_secret region method bucket path expiry
                           (datetime_str (gmtime t))).
-  Proof. intros H1 H2 H3 H4. rewrite (s3_querystr_sigv4 _ _ _ _ _ _ _ _ H1 H2 H3 H4). reflexivity. Qed.
+  Proof.
+    intros Ht H1 H2 H3 Ha H4.
+    rewrite (s3_querystr_sigv4 _ _ _ _ _ _ _ _ (in_domain_range t Ht) H1 H2 H3 Ha H4). reflexivity.
+  Qed.
+
+  (* ---------- from year 10000 on, every function fails: "%Y%m%d" no longer fits date[9], strftime
+     returns 0 and the function returns -1 / NULL.  (No condition on the other arguments.)  The
+     upper bound is the last instant for which gmtime_r returns a result at all. ---------- *)
+  Theorem far_future_rejected t :
+    (253402300800 <= t <= gmtime_r_max)%Z ->
+    (forall key_id key_secret region method bucket path body,
+       aws_sign_s3_headers_m sha256 hmac key_id key_secret region method bucket path body t = None) /\
+    (forall key_id key_secret region svc body,
+       aws_sign_svc_headers_m sha256 hmac key_id key_secret region svc body t = None) /\
+    (forall key_id key_secret region op body,
+       aws_sign_dynamodb_headers_m sha256 hmac key_id key_secret region op body t = None) /\
+    (forall key_id key_secret region method bucket path expiry,
+       aws_sign_s3_querystr_m sha256 hmac key_id key_secret region method bucket path expiry t = None).
+  Proof.
+    intros [Ht _]. pose proof (gmtime_year_far t Ht) as Hy.
+    repeat split; intros.
+    - unfold aws_sign_s3_headers_m, headers_variant. rewrite (timestamps_s3_headers_far t Hy). reflexivity.
+    - unfold aws_sign_svc_headers_m, headers_variant. rewrite (timestamps_svc_headers_far t Hy). reflexivity.
+    - unfold aws_sign_dynamodb_headers_m, headers_variant. rewrite (timestamps_dynamodb_headers_far t Hy). reflexivity.
+    - unfold aws_sign_s3_querystr_m. rewrite (timestamps_s3_querystr_far t Hy). reflexivity.
+  Qed.
 End Hashes.
 
-(* non-vacuity: the alphabet hypotheses are satisfiable by ordinary inputs, and the model really
-   produces an answer (here with a dummy 32-byte "hash") *)
+(* non-vacuity: the alphabet and path hypotheses are satisfiable by ordinary inputs (a path with
+   several segments; the bare "/"), the empty path and a relative path are excluded, and the model
+   really produces an answer (here with a dummy 32-byte "hash") *)
 Example aws_hypotheses_satisfiable :
-  unreserved_str (b "my-bucket.example_1~") = true /\ path_str (b "/dir/file-1.txt") = true /\
+  unreserved_str (b "my-bucket.example_1~") = true /\
+  abs_path (b "/dir/sub.dir/file-1_~.txt") = true /\ path_str (b "/dir/sub.dir/file-1_~.txt") = true /\
+  abs_path (b "/") = true /\ path_str (b "/") = true /\
+  abs_path [] = false /\ abs_path (b "dir/file") = false /\
   unreserved_str (b "us-east-1") = true /\
+  (0 <= 1700000000 < 253402300800)%Z /\
   (exists r, aws_sign_s3_headers_m (fun _ => repeat 7 32) (fun _ _ => repeat 9 32)
-               (b "AKID") (b "secret/+") (b "us-east-1") (b "GET") (b "my-bucket") (b "/k")
-               None 1700000000%Z = Some r).
-Proof. repeat split; try reflexivity. eexists. vm_compute. reflexivity. Qed.
+               (b "AKID") (b "secret/+") (b "us-east-1") (b "GET") (b "my-bucket")
+               (b "/dir/sub.dir/file-1_~.txt") None 1700000000%Z = Some r) /\
+  (exists q, aws_sign_s3_querystr_m (fun _ => repeat 7 32) (fun _ _ => repeat 9 32)
+               (b "AKID") (b "secret/+") (b "us-east-1") (b "GET") (b "my-bucket")
+               (b "/dir/sub.dir/file-1_~.txt") 3600%Z 1700000000%Z = Some q).
+Proof. repeat split; try reflexivity; try lia; try (eexists; vm_compute; reflexivity). Qed.
 
+(* the published rule for the empty path, and a non-trivial path, in the spec's canonical request *)
+Example canonical_uri_examples :
+  canonical_uri [] = b "/" /\
+  canonical_uri (b "/dir/sub dir/file+1.txt") = b "/dir/sub%20dir/file%2B1.txt" /\
+  canonical_uri (b "/dir/sub.dir/file-1_~.txt") = b "/dir/sub.dir/file-1_~.txt".
+Proof. vm_compute. repeat split; reflexivity. Qed.
+
+(* the libc model at the edges of the covered range and outside it (glibc: %Y is not padded) *)
 Example gmtime_examples :
   datetime_str (gmtime 0) = b "19700101T000000Z" /\
   datetime_str (gmtime 951782399) = b "20000228T235959Z" /\
   datetime_str (gmtime 951868800) = b "20000301T000000Z" /\
-  datetime_str (gmtime 253402300799) = b "99991231T235959Z".
+  datetime_str (gmtime 253402300799) = b "99991231T235959Z" /\
+  strftime 17 (b "%Y%m%dT%H%M%SZ") (gmtime 253402300799) = Some (b "99991231T235959Z") /\
+  strftime 9 (b "%Y%m%d") (gmtime 253402300800) = None /\
+  strftime 64 (b "%Y%m%dT%H%M%SZ") (gmtime 253402300800) = Some (b "100000101T000000Z") /\
+  strftime 17 (b "%Y%m%dT%H%M%SZ") (gmtime (-1)) = Some (b "19691231T235959Z") /\
+  strftime 17 (b "%Y%m%dT%H%M%SZ") (gmtime (-30610224000)) = Some (b "10000101T000000Z") /\
+  strftime 9 (b "%Y%m%d") (gmtime (-30610224001)) = Some (b "9991231") /\
+  strftime 9 (b "%Y%m%d") (gmtime (-62167219201)) = Some (b "-11231") /\
+  strftime 9 (b "%Y%m%d") (gmtime (-1000000000000)) = None /\
+  strftime 64 (b "%Y%m%d") (gmtime gmtime_r_max) = Some (b "21474855471231") /\
+  strftime 64 (b "%Y%m%d") (gmtime gmtime_r_min) = Some (b "-21474817480101").
 Proof. vm_compute. repeat split; reflexivity. Qed.
